@@ -7,7 +7,7 @@ def run(tier, seed, repo, focus=None):
     quick = tier == "quick"
     res = Result("C18", "bounded/b_C18.py",
                  "HDDDM/CDBD (detect_batch 2, 3), KdqTreeBatch, NNDVI on batch sequences vs the same sequences with the rows "
-                 "of every batch (and the reference) permuted, same seed schedule: measured divergence equal; decisions "
+                 "of every batch (and the reference) permuted (also DataFrames with non-unique row labels), same seed schedule: measured divergence equal; decisions "
                  "equal where the threshold is position-free (detect_batch=3, KdqTreeBatch, NNDVI); NNPS distance of "
                  "permuted samples incl. lattice-valued data with ties; single large batches (9000 / 17000 rows, more in the thorough "
                  "tier) sorted vs shuffled for the kdq-tree partitioner, KdqTreeBatch and HDDDM; non-trivial = a drift occurs",
@@ -29,6 +29,17 @@ def run(tier, seed, repo, focus=None):
                         scns.append({"det": name, "variant": v, "seed": seed + s, "n": 18, "blocky": False,
                                      "levels": [0, 0, 0, 0, 4, 4, 4, 4, 4, 4, -3, -3, -3, -3, -3, -3, -3, -3],
                                      "decisions": db != 2})
+    # DataFrame batches whose row labels are not unique (labels travelling with the permuted rows, or staying in place)
+    for name in ("HDDDM", "CDBD", "KdqTreeBatch", "NNDVI"):
+        d = C.DETECTORS[name]
+        for v, params in enumerate(d["variants"]):
+            db = params.get("detect_batch")
+            if name in ("HDDDM", "CDBD") and db == 1:
+                continue
+            for s in range(1 if quick else 4):
+                for idx in ("travel", "stay"):
+                    scns.append({"det": name, "variant": v, "seed": seed + s, "n": 10, "blocky": False, "index": idx,
+                                 "decisions": not (name in ("HDDDM", "CDBD") and db == 2)})
     drivers.run_scenarios(res, "row_order", scns, known)
     scns = []
     for s in range(6 if quick else 30):
